@@ -936,7 +936,9 @@ class _Fn:
             v, dirty = self.ev(s.value, env, handlers, dirty)
             if isinstance(s.target, ast.Name):
                 cur = env.get(s.target.id, NONE)
-                if isinstance(cur, Val) and cur.own:
+                listlike = isinstance(s.value, (ast.List, ast.ListComp)) or (isinstance(s.value, ast.Call) and isinstance(s.value.func, ast.Name)
+                                                                             and s.value.func.id in ("list", "sorted")) or v.store is not None
+                if isinstance(cur, Val) and cur.own and listlike:
                     dirty = self.mutate(dirty, cur, s, "augassign", tcls=cur.cls, fld=s.target.id)
                 env[s.target.id] = (cur if isinstance(cur, Val) else NONE) | Val(frozenset(), v.deep)
             else:
